@@ -639,7 +639,7 @@ fn main() {
     }
 
     // ---- generated messages ----
-    let n = args.n(4000, 120000);
+    let n = args.n(12000, 150000);
     for i in 0..n {
         let mut r = rng.fork();
         let m = gen_msg(&mut r, thorough);
@@ -650,7 +650,7 @@ fn main() {
     }
 
     // ---- several messages into one buffer (what the connection's write buffer holds) ----
-    let n = args.n(300, 6000);
+    let n = args.n(800, 8000);
     for _ in 0..n {
         let mut r = rng.fork();
         let k = r.range(2, 7) as usize;
